@@ -231,7 +231,7 @@ def cases(draw):
 
 def jobs(tier, seed):
     W = 12 if tier == "quick" else 16
-    n, shards = (2400, 8) if tier == "quick" else (36000, 16)
+    n, shards = (2400, 8) if tier == "quick" else (144000, 16)
     out = [{"name": f"window-{i}", "kind": "window", "W": W, "shard": i, "of": 16} for i in range(16)]
     out.append({"name": "timeouts-every-position", "kind": "tpos"})
     out += [{"name": f"hyp-{i}", "kind": "hyp", "seed": seed * 1000 + i, "n": n // shards} for i in range(shards)]
